@@ -80,9 +80,16 @@ def build(case):
     if sub == 'c06':
         cfg['malformed_acks'] = True
         cfg['raise_by_content'] = True
+        # (when engine.io notices an expired ping depends on its reader,
+        # which differs between its two implementations)
+        sc['ops'] = [op for op in sc['ops'] if op[0] != 'sdisc_expired']
     if sub in ('c05', 'c09'):
         cfg['raise_by_content'] = True
     if sub == 'c11':
+        if any(life.get('guest') for life in sc['lives']):
+            # the nested disconnect issued by a disconnect handler is
+            # awaited inline, like the threaded twin runs it inline
+            cfg['coroutine'] = True
         cfg['growth'] = False
         cfg['send_pauses'] = False
         cfg['raise_by_content'] = True
